@@ -14,12 +14,12 @@ CHECKS = {
         level="exploration", ref="DESIGN.md section 4 C02",
         technique="property-based testing (Hypothesis-generated schemas): compile everything exp2cxx emits, dump the run-time dictionary through its public getters and compare two-sided with the schema model (reference attribute order of ISO 10303-21 11.2.5.2)",
         text="Every generated schema is translated by the tree's exp2cxx, compiled and linked (a compile error of generated code is a violation), and the registry dump - entities with supertypes/subtypes/abstract flag/attributes in declaration order (explicit, redeclared, derived, inverse; name, optionality, type incl. aggregate bounds and flags), named types (underlying type, enumeration items in order, select members, aggregate kind/bounds/flags) and the attribute list of a fresh instance of every entity - must equal the model, nothing missing and nothing extra.",
-        note="Accessor/mutator pairs are discovered from the generated headers and round-tripped for INTEGER/REAL/STRING/BOOLEAN/LOGICAL/BINARY/enumeration/entity-reference attributes (aggregate- and select-valued pairs are counted, not exercised). Open findings F8 (negative literal bounds), F22, F38, F48 are matched by signature / fixed probes."),
+        note="Accessor/mutator pairs are discovered from the generated headers and round-tripped for INTEGER/REAL/STRING/BOOLEAN/LOGICAL/BINARY/enumeration/entity-reference attributes (aggregate- and select-valued pairs are counted, not exercised). Open findings F22, F38, F48 are matched by signature / fixed probes. The fixed zoo schema (lib/zoo.py) is explored in every run; identifiers include runs of underscores."),
     "C03": dict(
         level="fault_enumeration", ref="DESIGN.md section 4 C03",
         technique="property-based testing (Hypothesis) with exhaustive enumeration of single faults (class x attribute occurrence x instance position) per generated conforming population; oracle: severity/exit status threshold + confinement against the generator's model",
         text="Every applicable single fault of the statement's classes is applied in turn at every instance/part/attribute position of generated conforming populations; the real reader must end with severity <= INCOMPLETE and p21read must exit non-zero, and every other instance (not referring to the faulted one) must still serialise to its model value.",
-        note="Faults are generated only where the result is certainly outside ISO 10303-21 or the schema (table WRONG in lib/checks/c03.py). For unterminated records confinement is asserted only for earlier instances. Open finding F46 (recovery not string aware) is excluded by construction (strings without delimiters in the main campaign, probes with them). Layout noise is white space only."),
+        note="Faults are generated only where the result is certainly outside ISO 10303-21 or the schema (table WRONG in lib/checks/c03.py), also inside typed select values (wrong literal kind for the named member, directly or through nested selects; defined type outside the select list). Open finding F83 (reference that violates only a re-declaration brought along by another part of a complex instance) is its own fault class. For unterminated records confinement is asserted only for earlier instances. Open finding F46 (recovery not string aware) is excluded by construction (strings without delimiters in the main campaign, probes with them). Layout noise is white space only."),
     "C04": dict(
         level="fault_enumeration", ref="DESIGN.md section 4 C04",
         technique="property-based testing (Hypothesis-seeded grammar-directed EXPRESS generators lib/explang.py + lib/expgen.py) with single-fault mutation templates of the statement's fault classes (lib/mutate_exp.py) spliced at drawn declaration positions; differential oracle over check-express, exppp (two modes), exp2cxx, exp2python + verdict/exit-status/diagnostic rules from the statement",
@@ -34,7 +34,7 @@ CHECKS = {
         level="exploration", ref="DESIGN.md section 4 C06",
         technique="fuzzing by generation + token-/byte-level mutation (lib/mutate_exp.py; Hypothesis-seeded) through subprocesses of the clang ASan+UBSan builds of check-express, exppp, exp2cxx, exp2python; pathological lexical shapes from the statement (10^2..10^5 character remarks/literals, 1..200-deep nesting, NULs, bytes >= 0x80, no final newline); the 17 shipped schemas unchanged; CPU-time ceiling and n..8n scaling probe",
         text="Each case = (bytes, tool, options) run once as a subprocess of the sanitized binary: no sanitizer report, no signal, exit 0, or exit 1..2 with at least one diagnostic line; CPU time below 20 s + 40 us/byte; captured output below 48 MB. Coverage guidance is not used: the tools call exit() deep inside the library and keep parser state in globals, so an in-process target would leak state between inputs (said in the evidence).",
-        note="Open findings F71-F74 (fixed-size formatting/name buffers that need > 8 kB identifiers or > 6000-character item lists; assert on an entity name longer than a file name) are excluded by construction with one probe per worker. Buckets = sanitizer kind + innermost repository frame (gdb fallback when the tool's own handler turns the fault into abort())."),
+        note="Input classes: valid, token mutants, byte mutants, shipped-schema mutants, stretched lexical shapes, reference rings of length 1-3 (constants, derived attributes, types, functions, supertypes, interface clauses, INCLUDE of the file itself), semantic single-fault templates, exppp -l sweep. Open findings F71-F74 (fixed-size formatting/name buffers that need > 8 kB identifiers or > 6000-character item lists; assert on an entity name longer than a file name) are excluded by construction with one probe per worker. Buckets = sanitizer kind + innermost repository frame (gdb fallback when the tool's own handler turns the fault into abort())."),
     "C12": dict(
         level="exploration", ref="DESIGN.md section 4 C12",
         technique="property-based testing (Hypothesis): generated EXPRESS files (non-literal aggregate bounds: CONSTANTs, expressions, function calls, attributes) and the shipped schemas x drawn run configurations {ASLR on/off (setarch -R), cwd depth, absolute/relative/dot-dot/symlink input path, environment size, LC_ALL, TZ, dirty output directory, earlier run of another schema}; metamorphic oracle: byte-identical output trees and equal exit status over 4 runs per tool",
@@ -44,7 +44,7 @@ CHECKS = {
         level="exploration", ref="DESIGN.md section 4 C17",
         technique="property-based testing (Hypothesis): generated single- and multi-schema EXPRESS files with every defined-type shape, case noise and near-colliding names (lib/c17gen.py); differential two-sided set comparison between the CMakeLists.txt the scanner emits and the files exp2cxx creates, run exactly as the build runs them",
         text="In an empty directory schema_scanner is run on the file; for every directory it prints, exp2cxx is run there on the path named in SCHEMA_TARGETS(); one distinct directory per schema, directory name == PROJECT() == prefix of all file lists, every listed file exists, and the listed entity/type files equal the created ones (two-sided); everything else created is a listed fixed file or a unity header.",
-        note="Open finding F75: for multi-schema files whose schemas depend on each other exp2cxx writes numbered pass files (SdaiA_1.h ...) that the scanner does not list - excluded by construction, probed. A timeout is inconclusive, never a verdict; two declarations mapping to the same file name are counted, not failed (the statement says 'set')."),
+        note="Open finding F75: for multi-schema files whose schemas depend on each other exp2cxx writes numbered pass files (SdaiA_1.h ...) that the scanner does not list - only the mismatch of the fixed per-schema files is attributed to it; the per-entity / per-type sets are asserted for those files too. Identifiers of 60..160 characters in 12 % of the schemas. A timeout is inconclusive, never a verdict; two declarations mapping to the same file name are counted, not failed (the statement says 'set')."),
     "C18": dict(
         level="exploration", ref="DESIGN.md section 4 C18",
         technique="property-based testing (Hypothesis): generated single-schema files incl. identifiers that are Python keywords/builtins, multiple inheritance, redeclared/derived/inverse attributes; oracle = py_compile + import against the bundled runtime in a subprocess + introspection compared two-sided with the schema model (bases in declaration order, constructor parameters in Part 21 order, one definition per defined type)",
@@ -54,7 +54,7 @@ CHECKS = {
         level="fault_enumeration", ref="DESIGN.md section 4 C20",
         technique="property-based testing (Hypothesis-seeded generators) with one single-fault template per argument-carrying entry of LibErrors[] (parsed from the tree under test) and generator-chosen offending texts; oracle: arguments extracted with the table's own format string must equal the generator's texts and occur in the input; metamorphic oracle for -i/-w: stderr under a switch sequence == stderr of -w all filtered by the switch state, same exit status",
         text="For every reachable argument-carrying diagnostic a mutant is generated in which the offending identifier/character/count is chosen by the generator; check-express must attribute every located diagnostic to the input's own (generator-chosen) file name, print the expected entry, and quote exactly the chosen text - never an empty or foreign string. For every warning class switched on and off (sequences of -i/-w) the printed lines must be the baseline filtered by class and the verdict unchanged; unknown class names give the usage error, never a signal.",
-        note="Line numbers are not asserted (not in the statement). 44 of 62 argument-carrying entries are triggered; the other 18 are listed in the evidence with the reason (dead code, no call site, environment-only). The default warning state is read off the run without switches, not asserted."),
+        note="Every template case is run again with the imported schemas in files of their own (found through EXPRESS_PATH): the expected diagnostic must be printed and every located diagnostic must be attributed to a file that contains the text it quotes. Line numbers are not asserted (not in the statement). 44 of 62 argument-carrying entries are triggered; the other 18 are listed in the evidence with the reason (dead code, no call site, environment-only). The default warning state is read off the run without switches, not asserted."),
     "C07": dict(
         level="exploration", ref="DESIGN.md section 4 C07",
         technique="property-based testing: grammar-directed EXPRESS generator (lib/explang.py, Hypothesis) x exppp option sets; oracle = independent tokenizer + declaration splitter + Pratt expression parser (lib/exptok.py, lib/expparse.py): output accepted by check-express, declaration maps equal in canonical fully parenthesised form (two-sided), reprint token-stable, token streams equal across line lengths",
@@ -64,7 +64,7 @@ CHECKS = {
         level="exploration", ref="DESIGN.md section 4 C08",
         technique="property-based testing (Hypothesis-generated inheritance graphs and supertype expressions) with exhaustive enumeration of all 2^n-1 entity subsets per graph x two part orders; oracle = two independent legality predicates (lib/expmodel.legal_set and the constructive ISO 10303-11 Annex B enumeration in lib/complexref.py) that must agree",
         text="For every generated graph all non-empty subsets are written as externally mapped instances (twice, with permuted parts and shuffled instances) and read by the real library; an instance must be created iff both reference predicates call the set legal, refused instances must not disturb the others, created instances must serialise to the model, and part order must not matter. Exhaustive per graph over subsets.",
-        note="Graphs on which the two references disagree (redundant supertype corners, ~3%) are excluded and counted. Singletons are executed but not asserted (ISO 10303-21 requires internal mapping for one part). Open finding F59 (constraint violated at one occurrence of a multiply inheriting entity) is matched by an input-only shape predicate; 2 probes per shape and graph."),
+        note="Graphs on which the two references disagree (redundant supertype corners, ~3%) are excluded and counted. Singletons are executed but not asserted (ISO 10303-21 requires internal mapping for one part). Besides drawn graphs: every enumerated expression shape (depth <= 2, <= 4 operands), each also with an operand that is a subtype of a sibling of the carrying entity, and an enumerated family of two root hierarchies joined by a multiply inheriting entity (315 graphs; a third per quick run). No open finding (F59 was repaired; the shape classification code is inert)."),
     "C09": dict(
         level="exploration", ref="DESIGN.md section 4 C09",
         technique="exhaustive enumeration of short token strings per literal kind x delimiter context + rapidcheck random long tokens and writer grid, in-process against DFA recognisers transcribed from the Part 21 BNF and strtod/128-bit integer value functions",
@@ -99,12 +99,12 @@ CHECKS = {
         level="exploration", ref="DESIGN.md section 4 C16",
         technique="property-based testing (Hypothesis): generated schema x (partially filled) population x state assignment x save/load cycles; model comparison via independent parser of the working-session syntax, state comparison, byte comparison of successive saves",
         text="The real library reads a generated exchange file, assigns drawn states, writes a working-session file, reloads it in a fresh session and saves twice more; the saved text is parsed independently (state letters, values), the reloaded session must hold exactly the non-deleted instances with their saved states and model values, and later saves must be byte-identical (first save minus the deleted records).",
-        note="Only instances nobody references are marked deleted (a reference to a deleted instance is not a conforming reload); partially filled instances use required attributes of kinds without lenient filler, may be saved in any state, and are reloaded in strict and in lenient mode."),
+        note="Reloads go into a fresh lenient session, a fresh strict session, or the session the file was saved from (drawn). Only instances nobody references are marked deleted (a reference to a deleted instance is not a conforming reload); partially filled instances use required attributes of kinds without lenient filler, may be saved in any state, and are reloaded in strict and in lenient mode."),
     "C19": dict(
         level="exploration", ref="DESIGN.md section 4 C19",
         technique="stateful property-based testing (Hypothesis RuleBasedStateMachine) + exhaustive enumeration of short operation sequences against a list/multiset/set model",
         text="Every operation on ARRAY/LIST/BAG/SET is mirrored on a Python list/Counter/set model encoding the statement's rules; accept/reject and all size/bound/uniqueness queries are compared after each step.",
-        note="LIST index operations are only issued where the two readings of 'declared bounds' (ISO sizes vs. this runtime's index range) agree; see DESIGN.md C19 calibration."),
+        note="A grid of 10080 nested-aggregate combinations (outer kind x inner kind x declared element type x offered inner kind and element type) checks the element type where it is itself an aggregate. LIST index operations are only issued where the two readings of 'declared bounds' (ISO sizes vs. this runtime's index range) agree; see DESIGN.md C19 calibration."),
 }
 
 NOT_APPLICABLE = {}
